@@ -5,6 +5,8 @@ import VfsModel.Adapters
 import VfsModel.Leaf
 import VfsModel.Embedded
 import VfsModel.AsyncOps
+import VfsModel.OverlayConc
+import VfsModel.AltrootConc
 import Driver.Codec
 namespace Vfs.Driver
 open Vfs
@@ -158,6 +160,34 @@ def op2 {α} (s : DState) (fsid : Nat) (p : Str) (dfs : Nat) (d : Str) (f : VPat
     | _, _ => ("panic", s)
   | _, _ => ("bad-fs", s)
 
+/-- split a token list at the "|" tokens -/
+def splitBars (toks : List String) : List (List String) :=
+  toks.foldr (fun t acc => if t = "|" then [] :: acc else
+    match acc with
+    | [] => [[t]]
+    | a :: rest => (t :: a) :: rest) [[]]
+
+/-- the small-step model of concurrent `create_dir_all` calls on an overlay (VfsModel/OverlayConc.lean)
+under a given schedule, with the label of every layer call each thread makes -/
+def oconcRun (layers : List VPath) (w : World) (paths : List Str) (old : Bool) (sched : List Nat) :
+    OConc.Sys × List (List String) :=
+  let sys0 := if old then OConc.initSysOld layers w paths else OConc.initSys layers w paths
+  sched.foldl (fun (acc : OConc.Sys × List (List String)) tid =>
+      let lab := match acc.1.threads[tid]? with | some t => t.label | none => "?"
+      (OConc.step acc.1 tid, acc.2.modify tid (· ++ [lab]))) (sys0, paths.map fun _ => [])
+
+/-- a system of `Prog` threads under a schedule, with the label of every call each thread makes -/
+def progRun (sys0 : OConc.Sys) (sched : List Nat) : OConc.Sys × List (List String) :=
+  sched.foldl (fun (acc : OConc.Sys × List (List String)) tid =>
+      let lab := match acc.1.threads[tid]? with | some t => t.label | none => "?"
+      (OConc.step acc.1 tid, acc.2.modify tid (· ++ [lab]))) (sys0, sys0.threads.map fun _ => [])
+
+def encProgRun (fin : OConc.Sys) (labels : List (List String)) : String :=
+  let res := " ; ".intercalate (fin.results.map fun r => match r with
+    | none => "running" | some r => encRes (fun _ => "") r)
+  let labs := " ; ".intercalate (labels.map fun l => ",".intercalate l)
+  s!"{res} | {labs}"
+
 def stepWorld (s : DState) (toks : List String) : Option (String × DState) :=
   match toks with
   | ["reset"] => some ("ok", {})
@@ -216,6 +246,32 @@ def stepWorld (s : DState) (toks : List String) : Option (String × DState) :=
     else do
       let k ← parseNat k
       pure ("ok", { s with world := { s.world with fault := some k, fired := false } })
+  | "aconc" :: rest =>
+    -- aconc <fs>:<root path> | <path> … | <tid> …  : every thread i calls create_dir_all(path i) on
+    -- AltrootFS::new(root) (VfsModel/AltrootConc.lean); one token of the schedule = one call of the inner filesystem
+    match splitBars rest with
+    | [[r], ps, sc] => do
+      let roots ← parseLayers s [r]
+      let root ← roots.head?
+      let paths ← ps.mapM decStr
+      let sched ← sc.mapM parseNat
+      let (fin, labels) := progRun (OConc.initSysAlt root s.world paths) sched
+      pure (encProgRun fin labels, { s with world := fin.world })
+    | _ => none
+  | "oconc" :: rest =>
+    -- oconc <layer> … | <path> … | <tid> …   : every thread i calls create_dir_all(path i) on the overlay
+    -- over the given layers; one token of the schedule = one layer call of that thread
+    match splitBars rest with
+    | [ls, ps, sc] => do
+      let layers ← parseLayers s ls
+      let paths ← ps.mapM decStr
+      let sched ← sc.mapM parseNat
+      let (fin, labels) := oconcRun layers s.world paths false sched
+      let res := " ; ".intercalate (fin.results.map fun r => match r with
+        | none => "running" | some r => encRes (fun _ => "") r)
+      let labs := " ; ".intercalate (labels.map fun l => ",".intercalate l)
+      pure (s!"{res} | {labs}", { s with world := fin.world })
+    | _ => none
   | ["fired"] => some (if s.world.fired then "fired" else "not-fired", s)
   | ["clearlog"] => some ("ok", { s with world := { s.world with log := [] } })
   | ["log"] =>
